@@ -19,7 +19,7 @@ def describe(first, ev, run_ev):
     return key, f"grammar {json.dumps(first.get('vec', {}).get('g'))[:300]}"
 
 
-def ll_check(prop, tier, replay, do_gen, tv_sample, tv_every, rule, focus):
+def ll_check(prop, tier, replay, do_gen, tv_sample, tv_every, rule, focus, evalw=False):
     t0 = time.time()
     rep = Reporter(prop, tier)
     vec_path = os.path.join(OUT, f"{prop}_{tier}.vec.ndjson")
@@ -53,7 +53,8 @@ def ll_check(prop, tier, replay, do_gen, tv_sample, tv_every, rule, focus):
                                   "states": gen["distinct"], "vectors": len(seen)})
     outp = os.path.join(OUT, f"{prop}_{tier}.replay.ndjson")
     pv(["replay", "llrun", vec_path, outp],
-       env={"PV_GEN": "1" if do_gen else "0", "PV_TV_SAMPLE": tv_sample, "PV_TV_EVERY": tv_every, "PV_MAXK": 3})
+       env={"PV_GEN": "1" if do_gen else "0", "PV_TV_SAMPLE": tv_sample, "PV_TV_EVERY": tv_every, "PV_MAXK": 3,
+            "PV_EVAL": "1" if evalw else "0"})
     res = read_ndjson(outp)
     summary = res[-1]["summary"]
     for r in res[:-1]:
@@ -107,4 +108,12 @@ def c20(prop, tier, replay):
     return ll_check(prop, tier, replay, False, 3, 5 if tier == "quick" else 1, RULE, "TV only: option variants (trim, recovery off, depth limits) compared with the reference run")
 
 
-REGISTRY = {"C01": c01, "C02": c02, "C20": c20}
+def c08(prop, tier, replay):
+    return ll_check(prop, tier, replay, False, 1, 2 if tier == "quick" else 1, RULE + "; C08 adds: for every non-terminal with k>=1 "
+                    "the real LookaheadDFA::eval is called on a real TokenStream for EVERY window of up to k+1 tokens over the terminals "
+                    "and a foreign token (end of input after it) and the `eval` event is checked against LaSet of parol's transformed "
+                    "grammar: result p only if some lookahead string of p is a prefix of the window, error iff none is",
+                    "eval() exactness on all windows (TV) + LaSet guard on every expansion of the recorded runs", evalw=True)
+
+
+REGISTRY = {"C01": c01, "C02": c02, "C20": c20, "C08": c08}
